@@ -447,6 +447,34 @@ def worker_scratch_is_private(prog, res):
     res.need(R, 4)
 
 
+def dmer_reads_cover_the_hash_width(prog, res):
+    """T11: FASTCOVER_hashPtrToIndex hashes a d-mer with ZSTD_hash6Ptr / ZSTD_hash8Ptr, which both LOAD 8 bytes whatever d is.
+    A position handed to it must leave MAX(d, 8) bytes inside the samples: (a) a function that walks positions itself bounds them
+    with a length whose definition carries that 8 (a MAX with 8 / sizeof(U64)); (b) the functions that take their positions from
+    the epochs rely on nbDmers, defined from totalSamplesSize with the same MAX."""
+    R = "T11.dmer-read-width"
+    F = "lib/dictBuilder/fastcover.c"
+    h = prog.fn("FASTCOVER_hashPtrToIndex", F) if prog.has_fn("FASTCOVER_hashPtrToIndex") else None
+    wide = h is not None and {c.get("c") for b, i, c in h.calls()} >= {"ZSTD_hash6Ptr", "ZSTD_hash8Ptr"}
+    res.check(wide, R, "hash-loads-8-bytes", F, "FASTCOVER_hashPtrToIndex hashes through ZSTD_hash6Ptr / ZSTD_hash8Ptr (8-byte loads)", "FASTCOVER_hashPtrToIndex changed: re-read the rule")
+
+    def has8(f, node):
+        return any((const_val(y) == 8 and y.get("k") in ("int", "sizeof", "cast", "un")) or (y.get("k") == "sizeof") for y in f.walk_deep(node))
+    f = prog.fn("FASTCOVER_computeFrequency")
+    calls = f.call_roots("FASTCOVER_hashPtrToIndex")
+    guards_ = [(bid, t) for bid, cond, t, fl in f.branches()
+               if (lambda c: c is not None and c.get("k") == "bin" and c.get("op") in ("<=", "<") and has8(f, c["lhs"]))(strip_casts(f.resolve_x(cond)))]
+    res.check(bool(calls) and bool(guards_) and f.must_pass(via_edges=guards_, targets=calls), R, "FASTCOVER_computeFrequency:position-leaves-8-bytes", f.loc,
+              "every hashed position passed `start + MAX(d, 8) <= sampleEnd`",
+              "FASTCOVER_computeFrequency hashes positions bounded by d only: with d == 6 the last two d-mers of every sample load 8 bytes, the last ones "
+              "1-2 bytes past the caller's samples buffer")
+    g = prog.fn("FASTCOVER_ctx_init")
+    nd = [x for b, i, x in g.events(lambda y: y.get("k") == "asg" and strip_casts(y["lhs"]).get("k") == "mem" and strip_casts(y["lhs"]).get("f") == "nbDmers")]
+    res.check(bool(nd) and all(has8(g, x["rhs"]) for x in nd), R, "FASTCOVER_ctx_init:nbDmers-leaves-8-bytes", g.loc, "nbDmers = trainingSamplesSize - MAX(d, 8) + 1",
+              "FASTCOVER_ctx_init defines nbDmers without the 8-byte hash width: segment selection hashes positions whose 8-byte load ends past the samples")
+    res.need(R, 3)
+
+
 def run(tier):
     res = Result("C18", tier)
     tus, info = extract(["dictBuilder", "compress", "common"])
@@ -458,6 +486,7 @@ def run(tier):
     finalize_rules(prog, res)
     trainer_rules(prog, res)
     epochs_within_corpus(prog, res)
+    dmer_reads_cover_the_hash_width(prog, res)
     guarded_minuend(prog, res)
     best_rules(prog, res)
     best_buffer_capacity(prog, res)
